@@ -26,7 +26,7 @@ func (eng *Engine) newFV(fn *ssa.Function, c *Contract, pre []*Family) *FV {
 		blockOut: map[*ssa.BasicBlock]*State{}, edgeSt: map[[2]int]*State{},
 		loops: map[*ssa.BasicBlock]*LoopInfo{}, kindCount: map[string]int{},
 		unmodelled: map[string]bool{}, assumptionsUsed: map[string]bool{}, calleesUsed: map[string]bool{},
-		safetyOff: map[string]bool{}, preFams: pre, rootOf: map[string]string{},
+		safetyOff: map[string]bool{}, preFams: pre, rootOf: map[string]string{}, refKinds: map[string]string{},
 	}
 	pkg := fn.Pkg
 	if pkg == nil && fn.Parent() != nil {
@@ -139,7 +139,7 @@ func (eng *Engine) verifyFunctionAlias(fn *ssa.Function, c *Contract, alias map[
 		pre = nil
 		for _, k := range fv.famOrder {
 			f := fv.fams[k]
-			pre = append(pre, &Family{Key: f.Key, ArgSorts: f.ArgSorts, ResSort: f.ResSort})
+			pre = append(pre, &Family{Key: f.Key, ArgSorts: f.ArgSorts, ResSort: f.ResSort, RefKind: f.RefKind})
 		}
 	}
 	return fv
@@ -160,7 +160,7 @@ func (eng *Engine) verifyFunction(fn *ssa.Function, c *Contract) *FV {
 		pre = nil
 		for _, k := range fv.famOrder {
 			f := fv.fams[k]
-			pre = append(pre, &Family{Key: f.Key, ArgSorts: f.ArgSorts, ResSort: f.ResSort})
+			pre = append(pre, &Family{Key: f.Key, ArgSorts: f.ArgSorts, ResSort: f.ResSort, RefKind: f.RefKind})
 		}
 	}
 	return fv
@@ -177,6 +177,7 @@ func (fv *FV) run() {
 	fv.assumeGlobal(sx(">=", fv.wm0, "1"))
 	st.wm = fv.wm0
 	for _, f := range fv.preFams {
+		fv.refKinds[f.Key] = f.RefKind
 		fv.family(f.Key, f.ArgSorts, f.ResSort)
 		if f.Key == "GL|lock" {
 			fv.assumeGlobal("(forall ((r Int)) (= (" + fv.fams[f.Key].Short + "_0 r) 0))")
@@ -220,7 +221,9 @@ func (fv *FV) run() {
 				fv.specErrs = append(fv.specErrs, fmt.Sprintf("%s: requires: %v", fv.relName, err))
 				continue
 			}
+			fv.origin = r.Name
 			fv.assumeGlobal(t)
+			fv.origin = ""
 		}
 		if c.HasMod && !c.ModAssumed {
 			items, err := fv.modItems(ctx, c.Modifies)
@@ -482,6 +485,7 @@ func (fv *FV) loopHead(li *LoopInfo, in *State) *State {
 	}
 	nw := fv.freshConst("wm", "Int")
 	fv.assume(h, sx(">=", nw, in.wm))
+	h.wm = nw
 	// heap
 	var fr *frame
 	if li.spec != nil && li.spec.HasMod {
@@ -558,7 +562,9 @@ func (fv *FV) loopHead(li *LoopInfo, in *State) *State {
 	hctx := fv.loopCtx(li, h)
 	for _, inv := range invs {
 		if t, err := fv.trySpec(hctx, inv); err == nil {
+			fv.origin = inv.Name
 			fv.assume(h, t)
+			fv.origin = ""
 		}
 	}
 	li.havocSt = h.clone()
